@@ -1,21 +1,64 @@
 #!/usr/bin/env python3
-"""Development aid: markdown table of /verif/seeded/*/meta.json for DESIGN.md §7."""
+"""Development aid: (re)writes the table of DESIGN.md §7 from /verif/seeded/*/meta.json
+(between the markers <!-- seeded-table-begin --> and <!-- seeded-table-end -->)."""
 import glob
 import json
 import os
+import re
 
 VERIF = os.path.dirname(os.path.dirname(os.path.abspath(__file__)))
-print("| change | property | what it does | caught by (quick tier, seed 1) | confirmed | history |")
-print("|---|---|---|---|---|---|")
+
+
+def short(detail):
+    d = detail or ""
+    m = re.match(r"the implementation's answer contradicts the property \(reference oracle\): (\w+) at op", d)
+    if m:
+        return "reference oracle, class `%s`" % m.group(1)
+    if d.startswith("the harness crashed or timed out"):
+        return "harness crash / hang (sanitizer or timeout)"
+    if d.startswith("correspondence broken"):
+        return "model difference"
+    if d.startswith(": ['DIFF") or d.startswith(": [\"DIFF"):
+        return "bit-level difference to the Lean model"
+    if "runtime error" in d or "AddressSanitizer" in d:
+        return "sanitizer report in the harness"
+    head = d.split(":")[0].strip()
+    return ("history oracle, class `%s`" % head) if head and len(head) < 30 else "model difference"
+
+
+rows = ["| change | what it does | caught by (quick tier, seed 1) | confirmed | history |", "|---|---|---|---|---|"]
+ncaught = ntotal = 0
 for p in sorted(glob.glob(os.path.join(VERIF, "seeded", "*", "meta.json"))):
     m = json.load(open(p))
+    own = m.get("property", m.get("name", "")[:3])
     det = []
+    caught_own = False
     for prop, d in sorted(m.get("detection", {}).items()):
-        if d.get("exit") == 1:
-            kind = (d.get("detail") or "").split(":")[0][:60] or "model difference"
-            det.append("%s (%s)" % (prop, kind))
-        else:
+        if d.get("exit") == 1 and d.get("lines"):
+            det.append("%s: %s" % (prop, short(d.get("detail"))))
+            caught_own = caught_own or prop == own
+        elif d.get("exit") == 0:
             det.append("%s: not caught" % prop)
+    ntotal += 1
+    ncaught += caught_own
     c = m.get("confirmation", {})
-    conf = "yes" if c.get("demo_exit_without_change") == 0 and c.get("demo_exit_with_change") and all(x != 0 for x in c["demo_exit_with_change"]) and c.get("patch_applies") else ("pending" if not c else "see meta.json")
-    print("| %s | %s | %s | %s | %s | %s |" % (m.get("name"), m.get("property", ""), m.get("change", "").replace("|", "/"), "; ".join(det), conf, m.get("history", "caught as delivered")))
+    if not c:
+        conf = "pending"
+    elif c.get("patch_applies") and c.get("demo_exit_without_change") == 0 and c.get("demo_exit_with_change") and all(x != 0 for x in c["demo_exit_with_change"]) \
+            and any("tests passed" in l and ("99%" in l or "100%" in l) for l in c.get("ctest_summary", [])):
+        conf = "yes"
+    else:
+        conf = "see meta.json"
+    rows.append("| %s | %s | %s | %s | %s |" % (m.get("name"), m.get("change", "").replace("|", "/"), "; ".join(det) or "—", conf, m.get("history", "caught as delivered")))
+rows.append("")
+rows.append("%d of %d seeded changes are caught by the check of the property they were written against." % (ncaught, ntotal))
+table = "\n".join(rows)
+path = os.path.join(VERIF, "DESIGN.md")
+s = open(path).read()
+b, e = "<!-- seeded-table-begin -->", "<!-- seeded-table-end -->"
+if b in s:
+    s = s[:s.index(b) + len(b)] + "\n" + table + "\n" + s[s.index(e):]
+    open(path, "w").write(s)
+    print("table written: %d rows" % ntotal)
+else:
+    print(table)
